@@ -145,6 +145,14 @@ fn check(prop: &str, tier: &str, emit: Option<String>) -> i32 {
         let failures = match prop {
             "C18" => cli::c18(thorough, &mut stats),
             "C13" => cli::c13(thorough, &mut stats),
+            "C17" => cli::c17(thorough, &mut stats),
+            "C20" => cli::c20(thorough, &mut stats),
+            "C16" => cli::c16(thorough, &mut stats),
+            "C15" => {
+                let mut v = cli::c15(thorough, &mut stats);
+                v.extend(cli::c15_sections(&mut stats));
+                v
+            }
             "C14" => cli::c14(thorough, &mut stats),
             _ => {
                 eprintln!("mc: no E2 explorer for {}", prop);
